@@ -721,9 +721,12 @@ func (v Value) convert(t Type) (res Value) {
 			s[k] = Int32(v)
 		}
 		return newSlice(TypeInt32, s)
-	case TypeSlice:
-		if v.t.base() == TypeSlice {
+	default:
+		if v.t.base() == t.base() && t.base() >= nillableMin { // T(x) for a named slice, map or struct type T
 			return v
+		}
+		if t.base() != TypeSlice {
+			return Value{}
 		}
 		data := []byte(v.String())
 		s := make([]Value, len(data))
@@ -731,8 +734,6 @@ func (v Value) convert(t Type) (res Value) {
 			s[k] = Byte(v)
 		}
 		return newSlice(TypeUint8, s)
-	default:
-		return Value{}
 	}
 }
 
